@@ -12,6 +12,9 @@ Action tuples (ids are ints):
     ('E', raised)            a task runs group.__aexit__ (body raised or not)
     ('K',)                   the joining task is cancelled
     ('N', k)                 a task calls group.next_done()  (consumer k)
+J, E and N may carry a trailing tuple of adds ((i, 'n'|'v'|'e'), ...): tasks that have ALREADY
+FINISHED (outside the group) are put into the group with `add_task` and the call follows in the
+same coroutine without yielding in between (serialised for the model as `S + F + ... + J`).
 """
 import asyncio
 
@@ -133,6 +136,26 @@ class Impl:
         t.add_done_callback(lambda t, i=i: self._done(i, t))
         self.g._add_task(t)
 
+    def mk_done(self, i, oc):
+        """a task that has already finished (returned None / a value / raised) and belongs to no
+        group yet"""
+        self.gate[i] = self.loop.create_future()
+        self.gate2[i] = self.loop.create_future()
+        t = self.loop.create_task(self.member(i, ()))
+        self.gate[i].set_result(oc)
+        for _ in range(50):
+            if t.done():
+                break
+            self.idle()
+        return t
+
+    async def _add_finished(self, adds):
+        for (i, oc), t in adds:
+            self.task[i] = t
+            self.daemon[i] = False
+            self._done(i, t)
+            await self.g.add_task(t)
+
     def _done(self, i, t):
         if i not in self.task or self.task[i] is not t:
             return
@@ -146,9 +169,10 @@ class Impl:
         if not self.daemon[i]:
             self.log.append(i)
 
-    async def _join(self, kind, raised):
+    async def _join(self, kind, raised, adds=()):
         CancelledError = self.curio.CancelledError
         try:
+            await self._add_finished(adds)
             if kind == 'J':
                 await self.g.join()
             elif raised == 'c':
@@ -168,7 +192,8 @@ class Impl:
             self.obs.append('jxERR:' + type(e).__name__)
             self.join_state = 'exited'
 
-    async def _nextdone(self, k):
+    async def _nextdone(self, k, adds=()):
+        await self._add_finished(adds)
         t = await self.g.next_done()
         m = None if t is None else self.ident(t)
         self.obs.append(f'nd{k}={"N" if t is None else m}')
@@ -213,7 +238,9 @@ class Impl:
         elif k in ('J', 'E'):
             self.join_kind = k
             self.join_state = 'active'
-            self.joiner = self.loop.create_task(self._join(k, a[1] if k == 'E' else False))
+            adds = adds_of(a)
+            made = [((i, oc), self.mk_done(i, oc)) for i, oc in adds]
+            self.joiner = self.loop.create_task(self._join(k, a[1] if k == 'E' else False, made))
         elif k == 'K':
             if self.join_state == 'active':
                 self.join_state = 'cancelled'
@@ -221,7 +248,8 @@ class Impl:
             self.joiner.cancel()
             self.by_harness = False
         elif k == 'N':
-            self.consumers[a[1]] = self.loop.create_task(self._nextdone(a[1]))
+            made = [((i, oc), self.mk_done(i, oc)) for i, oc in adds_of(a)]
+            self.consumers[a[1]] = self.loop.create_task(self._nextdone(a[1], made))
             self.idle()
             if not self.consumers[a[1]].done():
                 self.obs.append(f'nb{a[1]}')
@@ -315,12 +343,25 @@ def valid_actions(im, r, nmax=6, allow_consumer_during_join=True, allow_consumer
         acts.append(('Y', i))
         acts.append(('Y', i))
         acts.append(('X', i))
+    def adds():
+        # tasks that have already finished when they are put into the group, right before the call
+        base = 200 + 10 * len(im.status)
+        return tuple((base + k, r.choice(['n', 'v', 'v', 'e'])) for k in range(r.choice([1, 1, 2, 3])))
+    # (not while a next_done caller is parked: its wake-up is deferred to the next loop iteration
+    # in the implementation but atomic in the model, which only matters inside such a back-to-back
+    # step)
+    parked = any(not t.done() for t in im.consumers.values())
     if js is None:
         acts.append(('J',))
         acts.append(('J',))
         acts.append(('E', r.choice([False, True, 'c'])))
+        if n < nmax and not parked:
+            acts.append(('J', adds()))
+            acts.append(('E', r.choice([False, True]), adds()))
         if allow_consumer:
             acts.append(('N', len(im.consumers)))
+            if n < nmax and not parked and r.random() < 0.5:
+                acts.append(('N', len(im.consumers), adds()))
     elif js in ('active', 'cancelled'):
         acts.append(('K',))
         if allow_consumer and allow_consumer_during_join and len(im.consumers) < 3 \
@@ -331,7 +372,18 @@ def valid_actions(im, r, nmax=6, allow_consumer_during_join=True, allow_consumer
     return acts
 
 
+def adds_of(a):
+    """the already-finished tasks a J / E / N action adds first"""
+    n = {'J': 1, 'E': 2, 'N': 2}.get(a[0])
+    return tuple(a[n]) if n is not None and len(a) > n else ()
+
+
 def ser_action(a, perm):
+    pre = ''.join(f'S {i} 0 - + F {i} {oc} - + ' for i, oc in adds_of(a))
+    return pre + _ser_action(a, perm)
+
+
+def _ser_action(a, perm):
     p = ','.join(map(str, perm)) if perm else '-'
     k = a[0]
     if k == 'S':
